@@ -112,6 +112,11 @@ pub fn run(rec: &mut Recorder, w: &mut World, tier: &str, seed: u64) {
                         if rng.chance(1, 5) { let a = rng.below(7); let l = 2 + rng.below(5); let d = dom(&mut rng);
                             let rules: Vec<Vec<String>> = (0..l).map(|i| { let mut r = sv(&[NAMES[(a + i) % 7], NAMES[(a + i + 1) % 7]]); if with_dom { r.push(d.clone()); } r }).collect();
                             MOp::AddM("g".into(), "g".into(), rules) }
+                        // one batch naming the same assignment twice; an assignment with an extra field beside the plain one
+                        else if rng.chance(1, 6) { let r = gr(&mut rng); rec.count("shape:batch-with-repeated-rule"); MOp::AddM("g".into(), "g".into(), vec![r.clone(), r]) }
+                        else if rng.chance(1, 6) { let r = if st.g.is_empty() || rng.chance(1, 2) { gr(&mut rng) } else { let mut x = rng.pick(&st.g).clone(); x.truncate(if with_dom { 3 } else { 2 }); x };
+                            let mut l = r.clone(); l.push(rng.pick(&["x", "y"]).to_string()); rec.count("shape:rule-longer-than-definition");
+                            if rng.chance(1, 2) { MOp::AddM("g".into(), "g".into(), vec![r, l]) } else { MOp::Add("g".into(), "g".into(), l) } }
                         else { MOp::Add("g".into(), "g".into(), gr(&mut rng)) } }
                     9 => MOp::Rm("g".into(), "g".into(), if st.g.is_empty() { gr(&mut rng) } else { rng.pick(&st.g).clone() }),
                     10 => MOp::Rm("p".into(), "p".into(), if st.p.is_empty() { pr(&mut rng) } else { rng.pick(&st.p).clone() }),
